@@ -400,7 +400,8 @@ ROUND3 = {
     "C17": "Round 3: K3 as a Role[K1] with two mandatory one-to-one fields.",
     "C18": "Round 3: strings that spell non-finite floats / JSON literals; a list holding the same sub-value object twice.",
     "C19": "Round 3: tag classes attr_constant and attr_abstract_base (27 classes); every tag in three calling contexts.",
-    "C20": "Round 3: an exception escaping a partially consumed evaluation is an observation and a violation.",
+    "C20": "Round 3: an exception escaping a partially consumed evaluation is an observation and a violation; Infer - histories in which "
+           "a rule infers an instance from a live one (the inferred instance lives exactly as long as its holder).",
 }
 for _k, _v in ROUND3.items():
     if _k in CHECKS:
